@@ -1055,6 +1055,58 @@ example :
     ((parseDecLit "5.".toList).map fun d => scalarEq (.float d) (.float ⟨false, 5, 0⟩)) = some true ∧
     parseDecLit "1e".toList = none ∧ parseDecLit "e3".toList = none ∧ parseDecLit ".".toList = none := by decide
 
+/-- round 3: hexadecimal floats, `_` in floats, durations with fractions / both micro signs / at the edge of int64 -/
+example :
+    ((parseDecLit "0x1.8p1".toList).map fun d => scalarEq (.float d) (.float ⟨false, 3, 0⟩)) = some true ∧
+    ((parseDecLit "0x1p-2".toList).map fun d => scalarEq (.float d) (.float ⟨false, 25, 2⟩)) = some true ∧
+    ((parseDecLit "1_000.5".toList).map fun d => scalarEq (.float d) (.float ⟨false, 10005, 1⟩)) = some true ∧
+    parseDecLit "0x1".toList = none ∧ parseDecLit "1_.5".toList = none ∧ parseDecLit "1e_1".toList = none ∧
+    parseDuration "1.5s".toList = some 1500000000 ∧ parseDuration ".5m".toList = some 30000000000 ∧
+    parseDuration "1.s".toList = some 1000000000 ∧ parseDuration ".s".toList = none ∧ parseDuration "1.5".toList = none ∧
+    parseDuration [ '1', Char.ofNat 0xC2, Char.ofNat 0xB5, 's'] = some 1000 ∧
+    parseDuration "2562047h47m16.854775807s".toList = some 9223372036854775807 ∧
+    parseDuration "2562047h47m16.854775808s".toList = none ∧
+    parseDuration "-2562047h47m16.854775808s".toList = some (-9223372036854775808) ∧
+    parseDuration "2562048h".toList = none := by decide
+
+private def numHolds (k : Kind) (v : Val) (w : DVal) : Bool :=
+  match numberDemand k v with
+  | some (some x) => scalarEq x w
+  | _ => false
+
+private def numRefused (k : Kind) (v : Val) : Bool :=
+  match numberDemand k v with
+  | some none => true
+  | _ => false
+
+/-- C17_number_range: numbers at the edge of what a kind holds — stored as they are, or refused -/
+example :
+    numHolds (.int 8) (.int 127) (.int 127) = true ∧ numRefused (.int 8) (.int 128) = true ∧
+    numHolds (.int 8) (.int (-128)) (.int (-128)) = true ∧ numRefused (.int 8) (.int (-129)) = true ∧
+    numRefused (.int 64) (.int 9223372036854775808) = true ∧
+    numRefused (.int 64) (.float ⟨false, 10 ^ 19, 0⟩) = true ∧
+    numHolds .dur (.int 9223372036854775807) (.int 9223372036854775807) = true ∧
+    numHolds (.uint 64) (.int 18446744073709551615) (.uint 18446744073709551615) = true ∧
+    numRefused (.uint 64) (.float ⟨false, 2 ^ 64, 0⟩) = true ∧
+    numRefused (.uint 8) (.float ⟨false, 2560, 1⟩) = true ∧
+    numRefused (.float 32) (.float ⟨false, 35 * 10 ^ 37, 0⟩) = true ∧
+    numHolds (.float 32) (.float ⟨false, 34 * 10 ^ 37, 0⟩) (.float ⟨false, 34 * 10 ^ 37, 0⟩) = true ∧
+    numRefused (.int 16) (.float ⟨false, 25, 1⟩) = true ∧
+    (decode repoFlags env0 (.scalar (.int 8) (.int 1)) (.int 128)).errs = [.type] ∧
+    scalarEq (decode repoFlags env0 (.scalar (.int 8) (.int 1)) (.int 128)).val (.int 1) = true ∧
+    scalarEq (decode repoFlags env0 (.scalar (.int 8) (.int 1)) (.int 127)).val (.int 127) = true := by decide
+
+/-- C17_plugin_instance_config: two blocks of the same plugin in one configuration — the second, which names the plugin and
+nothing else, is built from the registered defaults whatever the first was given; the value is found inside the instance -/
+example :
+    let two : Schema := .struct (.cons (fld "One" "one") gunPos (.cons (fld "Two" "two") gunPos .nil))
+    let cfg : Val := .map [("one".toList, .map (("type".toList, .str "grpc".toList) :: gunRest)),
+      ("two".toList, .map [("type".toList, .str "grpc".toList), ("target".toList, .str "h:1".toList)])]
+    (lookup ["One".toList, "#0".toList, "Workers".toList] (decode repoFlags env0 two cfg).val).map (scalarEq (.uint 2)) = some true ∧
+    (lookup ["Two".toList, "#0".toList, "Workers".toList] (decode repoFlags env0 two cfg).val).map (scalarEq (.uint 4)) = some true ∧
+    (lookup ["Two".toList, "#1".toList, "Target".toList] (decode repoFlags env0 two cfg).val).map (scalarEq (.str "h:1".toList)) = some true := by
+  decide
+
 end Examples
 
 end Pandora.Props.C17
